@@ -616,13 +616,14 @@ def gen_int_table(doc):
     return out
 
 
-def main():
-    if len(sys.argv) < 4:
-        print("usage: apigen.py <glam.json> <out.rs> <out_api.json> [--all-float]", file=sys.stderr)
-        return 2
-    doc = json.load(open(sys.argv[1]))
-    PATHS.update(doc.get("paths", {}))
-    want = sorted(set(FLOAT_TYPES + PADDED + ["BVec2", "BVec3", "BVec4", "BVec4A"]))
+def write_if_changed(path, text):
+    """keep the mtime of an unchanged generated file (cargo rebuilds on mtime)"""
+    if os.path.exists(path) and open(path).read() == text:
+        return
+    open(path, "w").write(text)
+
+
+def emit_table(doc, want, path):
     ops, skipped, specials = build_ops(doc, set(want))
     fns, rows = [], []
     for i, o in enumerate(ops):
@@ -634,9 +635,22 @@ def main():
            "#[allow(unused_mut, unused_variables, clippy::all)]", "mod generated_fns {", "use super::*;"]
     src += [f.replace("fn op_", "pub fn op_", 1) for f in fns + xf]
     src += ["}", "use generated_fns::*;", "pub static OPS: &[OpDesc] = &["] + rows + xr + ["];"]
-    open(sys.argv[2], "w").write("\n".join(src) + "\n")
+    write_if_changed(path, "\n".join(src) + "\n")
+    return ops, skipped, total
+
+
+def main():
+    if len(sys.argv) < 4:
+        print("usage: apigen.py <glam.json> <out.rs> <out_api.json> [--all-float]", file=sys.stderr)
+        return 2
+    doc = json.load(open(sys.argv[1]))
+    PATHS.update(doc.get("paths", {}))
+    want = sorted(set(FLOAT_TYPES + PADDED + ["BVec2", "BVec3", "BVec4", "BVec4A"]))
+    ops, skipped, total = emit_table(doc, want, sys.argv[2])
+    # the same for the 27 integer vector types: a second table of the same shape (a build selects one through GLAMSIM_OPS)
+    iops, iskipped, itotal = emit_table(doc, sorted(INT_TYPES), os.path.join(os.path.dirname(sys.argv[2]), "intops_generated.rs"))
     int_lines = gen_int_table(doc)
-    open(os.path.join(os.path.dirname(sys.argv[2]), "int_generated.rs"), "w").write(
+    write_if_changed(os.path.join(os.path.dirname(sys.argv[2]), "int_generated.rs"),
         "// @generated by /verif/apigen.py: integer-vector operations involving a second glam type\n"
         "pub fn generated_int_ops(v: &mut Vec<IntOp>) {\n" + "\n".join(int_lines) + "\n}\n")
     # skipped generic fns that the extras cover by hand are not "uncovered"
@@ -649,10 +663,12 @@ def main():
         "op_names": [o.name for o in ops],
         "uncovered_api": sorted(uncovered, key=lambda s: s["fn"]),
         "types": want,
+        "int_table": {"ops": itotal, "from_signatures": len(iops), "types": sorted(INT_TYPES),
+                      "uncovered_api": sorted([x for x in iskipped if not x["fn"].endswith(covered_by_hand)], key=lambda x: x["fn"])},
     }
     json.dump(api, open(sys.argv[3], "w"), indent=1)
-    print("apigen: %d ops (%d from signatures, %d hand-shaped), %d signatures outside the vocabulary"
-          % (total, len(ops), total - len(ops), len(uncovered)), file=sys.stderr)
+    print("apigen: %d ops (%d from signatures, %d hand-shaped), %d signatures outside the vocabulary; integer table %d ops"
+          % (total, len(ops), total - len(ops), len(uncovered), itotal), file=sys.stderr)
     return 0
 
 
